@@ -70,8 +70,9 @@ CHECKS.update({
   technique="contract-based deductive verification: postconditions over ghost effect state, loop invariant, function-type contract", ref="DESIGN.md section 7 (C12)"),
  "C13": dict(
   text=("Deductive proof, via a ghost call log appended by the call rule for Handler4/Handler6 values, that HandleMsg4/HandleMsg6 invoke l.handlers[0..k) in slice order, each once, each with the original request and the response returned by its predecessor, "
-        "stopping after the first handler that signals stop (k < len only then); what is sent is the last response, and nothing is sent when it is nil. `Built-in handlers return nil only together with stop` is a clause of the type contracts proved for every built-in handler."),
-  note=SRV_NOTE + " Not covered by this check: plugins.LoadPlugins / server.Start (that the handler slice equals the configured plugin list) - that half of C13 is not claimed.",
+        "stopping after the first handler that signals stop (k < len only then); what is sent is the last response, and nothing is sent when it is nil. `Built-in handlers return nil only together with stop` is a clause of the type contracts proved for every built-in handler. "
+        "plugins.LoadPlugins (second ghost log, of setup calls): every setup call is made through the plugin registered under the listed name, every handler appended is the non-nil result of the setup call just made, on success the number of handlers per protocol equals the number of setup calls, and any error (unknown name, failing setup, nil handler) returns no handlers."),
+  note=SRV_NOTE + " Not covered: server.Start (that the listeners are given the slices LoadPlugins returned: goroutines and sockets, not under contract); order preservation by append is covered per iteration (the appended element is the latest setup result), not as a whole-slice equality. The LoadPlugins contract assumes (preserves clause) that setup functions cannot reach the configuration object or the plugin registry.",
   technique="contract-based deductive verification: ghost call log, quantified loop invariant, function-type contracts", ref="DESIGN.md section 7 (C13)"),
  "C14": dict(
   text=("Deductive proof of the RFC 8415 section 16 decision matrix as a postcondition of serverid.Handler6 (discard iff SOLICIT/CONFIRM/REBIND carry a Server Identifier, REQUEST/RENEW/DECLINE/RELEASE carry none, or the identifier differs), and that a passed reply "
@@ -88,25 +89,25 @@ CHECKS.update({
   note=SRV_NOTE + " Wire encodings are the library constructors' (optenc is an uninterpreted function of the constructed option); searchdomains only proves presence of the option.", technique="contract-based deductive verification: decision-table postconditions, frame over option maps", ref="DESIGN.md section 7 (C17)"),
 })
 
-PFX_NOTE = SRV_NOTE + (" For the prefix plugin: recordKey's contract (the table key is a function of the client DUID) is TRUSTED; the Allocator interface contract used by the plugins has no precondition about the allocator's well-formedness "
+PFX_NOTE = SRV_NOTE + (" For the prefix plugin: recordKey is verified against `key = wire form of the DUID` (DUID.ToBytes assumed to return that wire form); the Allocator interface contract used by the plugins has no precondition about the allocator's well-formedness "
    "(object-invariant meta-argument: constructors establish it, methods preserve it, fields are unexported - each of those is verified in C04-C07); time.Now is unconstrained.")
 CHECKS.update({
  "C08": dict(
   text=("Deductive proof on the real prefix.(*Handler).Handle (six nested loops, each with an inductive invariant): no panic and no exit with the plugin mutex held for any request and any lease table (safety and lock obligations); "
         "every IA_PD of the request is answered by exactly one IA_PD option with the same IAID (the response gains one option 25 per request IA_PD unless the handler stops with nil); the handler's state invariant is established by setupPrefix "
-        "(receiver-invariant obligation) and preserved. That delegated blocks are in the pool, aligned, correctly sized and disjoint is the allocator's contract (C04/C05), which setupPrefix is proved to call with a well-formed IPv6 pool. "
+        "(receiver-invariant obligation) and preserved. The lease handed out and recorded for a new allocation is the block the allocator returned (keyed assertions); leases of different client identifiers are kept under different keys (recordKey = wire form of the DUID). That delegated blocks are in the pool, aligned, correctly sized and disjoint is the allocator's contract (C04/C05), which setupPrefix is proved to call with a well-formed IPv6 pool. "
         "Lifetimes (positive, preferred <= valid <= 1h) are NOT proved (time arithmetic is uninterpreted)."),
   note=PFX_NOTE, technique="contract-based deductive verification: loop invariants, safety/lock obligations, structural postcondition over ghost option counts", ref="DESIGN.md section 7 (C08, C09)"),
  "C09": dict(
   text=("Deductive proof on prefix.(*Handler).Handle of (a) the loop invariant `the list that will be recorded for the client grows by exactly one entry per successful allocation made while answering this IA_PD` (every delegated prefix is remembered, "
-        "however many the reply delegates), and (b) the assertion that a hint carrying no address is handled as an empty hint (it reaches the branch that hands the client its existing leases, instead of being compared with :: and sent on to a fresh allocation). "
+        "however many the reply delegates), that this list is in the table under the client's key when the mutex is released, that each entry is the block the allocator returned, and (b) the assertion that a hint carrying no address is handled as an empty hint (it reaches the branch that hands the client its existing leases, instead of being compared with :: and sent on to a fresh allocation). "
         "The full statement `a renewal/repeat returns P with a lifetime not shorter than what remained` is NOT proved: it needs invariants over the two local bitsets and time arithmetic (DESIGN.md section 8)."),
   note=PFX_NOTE, technique="contract-based deductive verification: loop invariant over a ghost allocation counter, keyed assertion", ref="DESIGN.md section 7 (C08, C09)"),
  "C19": dict(
   text=("Deductive proof, for dns, mtu, netmask, router, searchdomains, staticroute, lease_time, ipv6only, autoconfigure, nbp, sleep, server_id and prefix, that (1) every setup function is panic-free for every argument vector (safety obligations: argument indexing, nil results of parsers) "
         "and (2) a successful setup establishes the plugin invariants (post#plugin-invariant obligations; e.g. server_id: a 4-byte address; nbp: options carry their codes and serialise; staticroute: every appended route is IPv4 with a 32-bit mask; prefix: a well-formed 16-byte IPv6 pool and a handler whose state invariant holds), "
         "under which (3) every handler obligation - safety, and the serialisability precondition of every option insertion (Options.Update calls Value.ToBytes) - is discharged; (4) a scan shows the configuration globals are written only by their setup functions. "
-        "`The reply parses back to the same options` is the codec's FromBytes/ToBytes round trip: assumed. range and file are covered by C02/C10 only as far as claimed there."),
+        "`The reply parses back to the same options` is the codec's FromBytes/ToBytes round trip: assumed. range: setupRange returns a handler whose state invariant holds (receiver-invariant obligations: table well-formed, records distinct, database mirrored - from a trusted clause about the loader -, allocator and database present, mutex free). file is covered by C10 only as far as claimed there."),
   note=SRV_NOTE + " The step from `every appended route is IPv4` to `every configured route is IPv4` (staticroute) is not machine-checked. Inductive plugin invariants are assumed to hold for zero-valued globals.", technique="contract-based deductive verification: setup postconditions (plugin invariants) + handler preconditions + write-frame scan", ref="DESIGN.md section 7 (C19)"),
 })
 
@@ -114,22 +115,24 @@ CHECKS.update({
  "C02": dict(
   text=("Deductive proof on the real rangeplugin.(*PluginState).Handler4, for every request and every lease table satisfying the state invariant: a client that already has a binding is answered with exactly that address and the table entry is untouched "
         "(no binding is ever changed or removed: stickiness); an unknown client is bound to an address obtained from exactly one successful Allocate call of this invocation; when Allocate fails the handler returns (nil, stop), changes no binding and consumes nothing, and "
-        "this happens only for clients without a binding; known clients consume no allocator block; the lease-time option is set; the handler leaves the plugin mutex released and preserves the state invariant. Every access to the table happens with the mutex held (lock obligations)."),
+        "this happens only for clients without a binding; known clients consume no allocator block; option 51 carries the configured lease time (rounded as the code rounds it); the handler leaves the plugin mutex released and preserves the state invariant (including: every client has a record object of its own). Every access to the table happens with the mutex held, and the table is HAVOCKED at every acquisition (what other goroutines left there, up to the invariant), so the postconditions hold for concurrent requests as well. "
+        "Restart: setupRange makes exactly one successful Allocate call per loaded record (loop invariant over the map-iteration counter: allocations so far = keys delivered so far) or refuses to start, and establishes the handler's state invariant."),
   note=SRV_NOTE + (" NOT proved here: that offered addresses lie in the range and that no address is bound to two clients - these follow from the allocator contracts C04/C05 together with the invariant `bound addresses = outstanding blocks`, "
-        "which is not machine-checked (the Allocator interface contract used by the plugin has no abstract view); restarts (setupRange re-marking loop) and the database are not covered; HardwareAddr.String is an uninterpreted injective-by-assumption function of the address value; time arithmetic is uninterpreted."),
+        "which is not machine-checked (the Allocator interface contract used by the plugin has no abstract view); that the address re-marked at start-up is the stored one (the code compares String() forms: uninterpreted); HardwareAddr.String is an uninterpreted function of the address value; `a range over a map delivers each key exactly once` is the language guarantee built into the iteration counter; setupRange assumes (preserves clause) that opening and reading the database cannot reach the allocator, the database handle field or the allocation counter."),
   technique="contract-based deductive verification: postconditions over the whole lease map (quantified), state invariant, lock obligations", ref="DESIGN.md section 7 (C02)"),
  "C03": dict(
-  text=("Deductive check of the one obligation of C03 that contracts on /repo code can express: every row the handler writes must be loadable by loadRecords, i.e. net.ParseMAC accepts the stored text of the hardware address "
-        "(precondition of saveIPAddress, generated at both call sites in Handler4, using source-derived contracts of HardwareAddr.String and ParseMAC), plus safety of the storage functions. This obligation is REFUTED on the pinned tree for every "
-        "hardware-address length other than 6, 8 and 20 (replayed: restart fails) and is listed as a known finding; outside that input class it is proved. The round trip through sqlite itself is not decided."),
-  note=SRV_NOTE + " sqlite (cgo) is outside the verifier: database/sql calls are assumed not to touch Go memory; what the database stores and returns (column affinity, atomicity, crash points inside a statement) is not modelled; no bounded stand-in is run in this check.",
+  text=("Deductive check of three obligations that contracts on /repo code can express. (i) Every row the handler writes must be loadable by loadRecords, i.e. net.ParseMAC accepts the stored text of the hardware address "
+        "(precondition of saveIPAddress at both call sites in Handler4, source-derived contracts of HardwareAddr.String and ParseMAC): REFUTED on the pinned tree for every hardware-address length other than 6, 8 and 20 (replayed: restart fails), listed as a known finding, proved outside that input class. "
+        "(ii) Over a ghost view of the database (one row per hardware-address text, replaced by a successful saveIPAddress): while no write has failed, the database holds exactly the bindings of the in-memory table with their addresses and expiries - an invariant of the table's mutex, proved at every release and after setupRange. "
+        "(iii) Expiry: every row written, and the record kept for the client, expires no earlier than latest-clock-reading + lease time in whole seconds (precondition of saveIPAddress and postcondition of Handler4), over an assumed linear model of package time. Plus safety of the storage functions."),
+  note=SRV_NOTE + " sqlite (cgo) is outside the verifier: database/sql calls are assumed not to touch Go memory; what the database stores and returns (column affinity, atomicity, crash points inside a statement) is NOT modelled - two TRUSTED clauses stand for it (saveIPAddress replaces the client's row or fails leaving the view unchanged; the table loadRecords returns is the database view) and no bounded stand-in is run. After a failed write (only logged by the handler) nothing is claimed. time.spec (assumed): monotone clock, exact Add/Before/Unix/Round in (seconds, nanoseconds) pair form for 1970..2220 and lease times of 0..~95 years; stored expiries are taken to be plausible Unix times (0..8e9 s).",
   technique="contract-based deductive verification: precondition at call sites; known-finding carve-out re-proved", ref="DESIGN.md section 7 (C03)"),
  "C10": dict(
-  text=("Deductive proof on the real file plugin: the loaders return a fresh table whose every address is of the instance's family, or an error (quantified map invariants over the parsing loops); loadFromFile is all-or-nothing "
+  text=("Deductive proof on the real file plugin: the loaders look at every line of the file (an unterminated last line included) and return a fresh table whose every address is of the instance's family only if EVERY line is empty, a comment, or `hardware address + address of the right family`; otherwise an error (quantified loop invariants over the parsing loops); loadFromFile is all-or-nothing "
         "(error => the table pointer in force is unchanged; success => it is replaced as a whole by the freshly loaded table, under the write lock); Handler4 answers a listed hardware address with exactly the listed address and stops, and leaves the response alone otherwise; "
-        "Handler6 adds nothing when no IA_NA was requested; handlers never modify the table; every access to the table is under recLock and no exit leaves it held. `Each instance serves from its own file` is stated as a stability obligation "
+        "Handler6 adds nothing when no IA_NA was requested or the client is not listed, and for a listed client exactly one IA_NA holding exactly one IA address equal to the listed one; handlers never modify the table; every access to the table is under recLock and no exit leaves it held. `Each instance serves from its own file` is stated as a stability obligation "
         "(the other protocol's setup must preserve this instance's table invariant): REFUTED on the pinned tree (single shared table; replayed) and listed as two known findings."),
-  note=SRV_NOTE + " Not decided: that the table equals the file line by line (os.ReadFile, bytes.Split, strings.Fields, ParseMAC, ParseIP are uninterpreted - only the per-line family check and last-wins map update are covered), and `eventually` after an update (liveness through fsnotify).",
+  note=SRV_NOTE + " Not decided: that each accepted line ends up in the table under its own key (strings.Fields, HasPrefix, ParseMAC, ParseIP, ExtractMAC are uninterpreted functions of their arguments; bytes.Split is pinned by a spec function only in its number of pieces), and `eventually` after an update (liveness through fsnotify).",
   technique="contract-based deductive verification: loop invariants over maps, postconditions, lock obligations, plugin-invariant stability obligations", ref="DESIGN.md section 7 (C10)"),
 })
 
@@ -144,10 +147,10 @@ CHECKS.update({
   technique="contract-based deductive verification: annotation-free safety obligations, lock obligations, loop invariants, type contracts", ref="DESIGN.md section 7 (C01)"),
  "C16": dict(
   text=("Lock-invariant reasoning, machine-checked per function: (1) every access to state declared `guard`ed (allocator bitmaps, PluginState.Recordsv4, Handler.Records, file.StaticRecords) happens with its mutex held (read-held suffices for reads under the RWMutex); "
-        "(2) Lock/RLock are never called on a mutex the goroutine holds, Unlock/RUnlock only on one it holds, and every exit leaves each touched mutex as at entry; (3) for the two allocators the state protected by the mutex is HAVOCKED at every acquisition (what other goroutines left there, "
-        "up to the invariant) and the C04-C07 postconditions are proved about the critical section, so a check-then-act split over two critical sections fails; (4) the receive-buffer pool only holds full-capacity buffers and handlers receive freshly parsed, non-aliased packets. "
+        "(2) Lock/RLock are never called on a mutex the goroutine holds, Unlock/RUnlock only on one it holds, and every exit leaves each touched mutex as at entry; (3) for the two allocators and the range plugin's lease table the state protected by the mutex is HAVOCKED at every acquisition (what other goroutines left there, "
+        "up to the invariant, which is an obligation at every release) and the C02 and C04-C07 postconditions - which count for this check as well - are proved about the critical section, so a check-then-act split over two critical sections fails; (4) the receive-buffer pool only holds full-capacity buffers and handlers receive freshly parsed, non-aliased packets. "
         "From (1)-(3) freedom from data races on the guarded state and preservation of the data-structure invariants at every critical-section boundary in every schedule follow by the classical lock-invariant argument (DESIGN 2.9) - that meta-argument is on paper."),
-  note=SRV_NOTE + " NOT claimed: equality of the reply set with a serial order at message granularity (the prefix plugin releases its mutex between the IA_PDs of one message); races inside logrus, fsnotify, sqlite, the codec; logger.GetLogger's double-checked locking (trusted contract; only called from package initialisers); for range/prefix/file the postconditions are sequential (the map state is not havocked at acquisition). The Go race detector is used only to replay one lock obligation, not as a deciding method.",
+  note=SRV_NOTE + " NOT claimed: equality of the reply set with a serial order at message granularity (the prefix plugin releases its mutex between the IA_PDs of one message); races inside logrus, fsnotify, sqlite, the codec; logger.GetLogger's double-checked locking (trusted contract; only called from package initialisers); for prefix/file the postconditions are sequential (the map state is not havocked at acquisition). The Go race detector is used only to replay one lock obligation, not as a deciding method.",
   technique="contract-based deductive verification: lock-ownership obligations (guarded-by), lock-invariant havoc at acquisition", ref="DESIGN.md section 7 (C16), 2.9"),
  "C18": dict(
   text=("Deductive proof on the real config package: no panic in parsePlugins, splitHostPort, getListenAddress, getPlugins, parseListen, parseConfig, expandLLMulticast, defaultListen for any configuration tree (the two `BUG` panics are unreachable after protoVersionCheck; string slicing at the zone separator is in bounds); "
